@@ -2,6 +2,7 @@ package c16
 
 import (
 	"bytes"
+	"encoding/binary"
 	"encoding/json"
 	"fmt"
 	"os"
@@ -54,6 +55,9 @@ type dbCfg struct {
 	MaxFile  uint64 `json:"maxfile"`
 	Keep     uint32 `json:"keep"`
 	Backup   bool   `json:"backup"`
+	// "history offset": the store starts with one block whose data sits at this position of a sparse data
+	// file (only with MaxFile 0 = unlimited), as after a long synchronisation: positions beyond 4 GiB
+	Base int64 `json:"base,omitempty"`
 }
 
 type blkSpec struct {
@@ -118,7 +122,7 @@ type summary struct {
 	unindexedTail, appendAfterTail           bool
 	cutRecords, abortedLoads, twins          int
 	abortedMidway                            bool
-	dataCuts                                 int
+	dataCuts, readBeyond4G                   int
 	addsAfterCutThenReopen                   bool
 }
 
@@ -326,6 +330,9 @@ func (r *runner) checkGet(b *mblk, nocache bool) error {
 	}
 	if b.written {
 		r.sum.readDisk++
+		if b.fpos+b.stored > 1<<32 {
+			r.sum.readBeyond4G++
+		}
 	} else {
 		r.sum.readQueued++
 	}
@@ -671,6 +678,21 @@ func (r *runner) dataCut(nblocks, keep int) error {
 	if nblocks > cnt {
 		nblocks = cnt
 	}
+	if nblocks == cnt {
+		// all records of the newest file would go: a later clean restart then falls back to the file before
+		// it, which must still be in the main directory (same restriction as for the cut fault: with tiny
+		// data files repeated faults would otherwise walk back into data files retired long ago)
+		var f uint32
+		if n-cnt > 0 {
+			f = r.records[n-cnt-1].file
+		}
+		if f+1 < lastFile || r.archived[f] {
+			nblocks--
+		}
+	}
+	if nblocks == 0 {
+		return nil
+	}
 	t := n - nblocks
 	rec := r.records[t]
 	newSize := rec.fpos + int64(keep)%rec.stored
@@ -815,11 +837,68 @@ func checkBlockDB(c caseC16) (sum summary, err error) {
 	}()
 	err = r.run(c)
 	returned = true
+	if err != nil && os.Getenv("VERIF_C16_DEBUG") != "" {
+		for i, b := range r.records {
+			fmt.Printf("record %d: block #%d file %d fpos %d stored %d invalid=%v gone=%v\n", i, r.serial(b), b.file, b.fpos, b.stored, b.invalid, b.gone)
+		}
+		fmt.Printf("model curIdx=%d curPos=%d archived=%v\n", r.curIdx, r.curPos, r.archived)
+		for _, d := range []string{dir, dir + "/oldat"} {
+			ents, _ := os.ReadDir(d)
+			for _, e := range ents {
+				fi, _ := e.Info()
+				fmt.Printf("  %s/%s %d\n", d, e.Name(), fi.Size())
+			}
+		}
+	}
 	return
 }
 
+// preSeed emulates a long history cheaply: one block is stored the regular way, then its data is moved to
+// position base of the (now sparse) data file and the 64-bit position in its index record is set accordingly -
+// exactly what the files look like after gigabytes of blocks, without writing them.
+func (r *runner) preSeed(base int64) error {
+	if err := r.open(); err != nil {
+		return err
+	}
+	r.add(&blkSpec{Kind: "text", Size: 500, Seed: uint64(base), Height: 1, Txs: 2}, false)
+	b := r.blocks[0]
+	r.db.Close()
+	r.mFlush()
+	r.db = nil
+	if !b.written || b.file != 0 || b.fpos != 0 {
+		return fmt.Errorf("harness: unexpected placement of the first block")
+	}
+	df, err := os.OpenFile(r.datName(0), os.O_RDWR, 0o660)
+	if err != nil {
+		return fmt.Errorf("harness: %v", err)
+	}
+	data := make([]byte, b.stored)
+	_, e1 := df.ReadAt(data, 0)
+	_, e2 := df.WriteAt(data, base)
+	df.Close()
+	idx, e3 := os.ReadFile(r.dir + "blockchain.new")
+	if e1 != nil || e2 != nil || e3 != nil || len(idx) != 136 {
+		return fmt.Errorf("harness: cannot build the sparse data file (%v %v %v)", e1, e2, e3)
+	}
+	binary.LittleEndian.PutUint64(idx[40:48], uint64(base))
+	if err := os.WriteFile(r.dir+"blockchain.new", idx, 0o660); err != nil {
+		return fmt.Errorf("harness: %v", err)
+	}
+	b.fpos = base
+	r.mReopen()
+	if err := r.open(); err != nil {
+		return err
+	}
+	return r.sweep()
+}
+
 func (r *runner) run(c caseC16) (err error) {
-	if err = r.open(); err != nil {
+	if c.Cfg.Base > 0 && c.Cfg.MaxFile == 0 {
+		if err = r.preSeed(c.Cfg.Base); err != nil {
+			err = fmt.Errorf("store with a history of %d bytes: %v", c.Cfg.Base, err)
+			return
+		}
+	} else if err = r.open(); err != nil {
 		return
 	}
 	for i, o := range c.Ops {
@@ -971,13 +1050,17 @@ func genCase(t *rapid.T, thorough bool) caseC16 {
 	var c caseC16
 	c.Cfg.Compress = rapid.Bool().Draw(t, "compress")
 	c.Cfg.Cache = rapid.IntRange(1, 8).Draw(t, "cache")
-	files := []uint64{0, 100, 100, 1000, 5000, 20000, 100000, 300000}
+	files := []uint64{0, 0, 100, 100, 1000, 5000, 20000, 100000, 300000}
 	if thorough {
 		files = append(files, 2<<20, 8<<20)
 	}
 	c.Cfg.MaxFile = files[uni(t, "maxfile", len(files))]
 	c.Cfg.Keep = []uint32{0, 0, 1, 2, 3}[uni(t, "keep", 5)]
 	c.Cfg.Backup = rapid.Bool().Draw(t, "backup")
+	if c.Cfg.MaxFile == 0 && uni(t, "history", 2) == 0 {
+		// the next stores cross, or lie beyond, a 4 GiB boundary of the single data file
+		c.Cfg.Base = int64(1+uni(t, "history_gib", 3))<<32 + int64(rapid.IntRange(-70000, 70000).Draw(t, "history_delta"))
+	}
 	maxSteps := 60
 	if thorough {
 		maxSteps = 100
@@ -1043,6 +1126,9 @@ func TestBlockDBModel(t *testing.T) {
 		}
 		if sum.abortedMidway {
 			r.Class("aborted_index_load")
+		}
+		if sum.readBeyond4G > 0 {
+			r.Class("data_file_beyond_4GiB")
 		}
 		if sum.dataCuts > 0 {
 			r.Class("data_file_cut_below_index")
